@@ -98,6 +98,16 @@ fn oracle(c: &BatchCase) -> Verdict {
         let rp: Vec<u64> = c.v2.iter().map(|(s, r)| plain_value(*s, *r, t)).collect();
         let plain = be.encode_polynomial_new(&rp);
         let dv = match catch(|| be.decode_new(&plain)) { Ok(d) => d, Err(p) => return fail(format!("decode of a coefficient plaintext panicked: {p}")) };
+        // destination form into a vector that was used before, with short plaintexts (what decryption returns: trimmed to the
+        // significant coefficients) - must equal the value-returning form
+        for l in [1usize, 1 + pick_idx(c.len_sel, n), n] {
+            let mut short = be.encode_polynomial_new(&rp[..l]);
+            if l < n && c.len_sel & 1 == 1 { short.resize(l); }
+            let want = be.decode_new(&short);
+            let mut dest: Vec<u64> = (0..n + 3).map(|i| (i as u64 * 11 + 5) % t).collect();
+            if catch(|| be.decode(&short, &mut dest)).is_err() { return fail(format!("decode into a used destination panicked (plaintext with {l} coefficients)")); }
+            check!(dest == want, "decode of a {l}-coefficient plaintext into a previously used destination differs from decode_new (N={n}, t={t})");
+        }
         for &i in &positions { check!(dv[i] == rm::eval_poly(&rp, pts[i], t), "decode(p)[{i}] is not p evaluated at the slot's root (N={n}, t={t})"); }
         let back = be.encode_new(&dv);
         check!(back.data()[..] == rp[..], "encode(decode(p)) != p (N={n}, t={t})");
